@@ -229,6 +229,8 @@ func c10Drivers() []concParams {
 		// writers queue up behind a transaction that holds the write lock until all of them are
 		// parked: when it commits, one becomes leader and finds the others waiting to be merged
 		{Name: "queue-behind-transaction", Cfg: "roomy/bytewise", Clients: [][]string{{"trq:+z"}, {"put:a"}, {"put:b"}, {"w:+a,+b", "get:a"}}, QB: 2, TB: 3, WQ: 4, WT: 5, Expect: "noerr"},
+		// only batches in the queue: the leader is a Write whose own (caller-owned) batch heads the group
+		{Name: "queue-behind-transaction-batches", Cfg: "roomy/bytewise", Clients: [][]string{{"trq:+z"}, {"w:+a,+b"}, {"w:+b,-a"}, {"w:+a", "get:a"}}, QB: 2, TB: 3, Expect: "noerr"},
 		{Name: "queue-behind-transaction-overflow", Cfg: "wide/bytewise", Clients: [][]string{{"trq:+z"}, {"put:a"}, {"put:b"}, {"putL:b"}, {"w:+a,+b", "get:a"}}, QB: 2, TB: 2, WT: 4, Expect: "noerr"},
 		// the same queue with a record above the fixed 128 KiB merge limit in a roomy buffer: the
 		// oversized writer takes the lock over without having to rotate the buffer first
